@@ -12,7 +12,7 @@ RULE = ("argument tuples for build_delegating_metadata / build_root_metadata: va
         "(every kind, Infinity/NaN/0/-1/floats, bad timestamps, duplicate keys, malformed delegations); results compared with the model, fed to the "
         "checker, and root results signed and chained through verify_root.  non-trivial = a call that returns metadata; distinct by arguments")
 
-THEOREMS = ["build_ok_wellformed", "build_err_is_argerror", "build_fields_verbatim", "buildRoot_delegates_both", "default_expiry_after_timestamp"]
+THEOREMS = ["build_ok_wellformed", "build_err_is_argerror", "build_ok_fields", "buildRoot_delegates_both", "default_times"]
 
 CLOCKS = [dt.datetime(2020, 7, 13, 5, 46, 45, 123456), dt.datetime(2020, 2, 29, 23, 59, 59, 999999), dt.datetime(2019, 12, 31, 23, 59, 59), dt.datetime(2023, 3, 1, 0, 0, 0),
           dt.datetime(1, 1, 1, 0, 0, 0), dt.datetime(9998, 6, 1, 23, 59, 59), dt.datetime(2024, 2, 28, 12, 0, 1), dt.datetime(2100, 2, 28, 1, 2, 3), dt.datetime(999, 5, 5, 5, 5, 5)]
